@@ -30,7 +30,7 @@ import yaml  # noqa: E402
 # ----------------------------------------------------------------------------- inputs
 
 L1 = [("401000", "mov", ["%rax", "%rbx"]), ("401003", "movl", ["$0x1", "%eax"]), ("401008", "push", ["%rax"]),
-      ("401009", "push", ["%rax"]), ("40100a", "mov", ["%rbx", "%rax"]), ("40100d", "ret", [])]
+      ("401009", "push", ["%rax"]), ("40100a", "mov", ["%rbx", "%rax"]), ("40100d", "ret", []), ("40100e", "movl", ["$0x10", "%ecx"])]
 L2 = [("401000", "call", ["401030"]), ("401005", "call", ["402030"]), ("40100a", "jmp", ["401030"]),
       ("40100f", "call", ["*%rax"]), ("401011", "mov", ["%rax", "%rbx"]), ("401014", "ret", [])]
 
@@ -90,6 +90,8 @@ OPS = {
     "bad_times":    dict(rule=_r([{"mov": {"times": {"min": 3, "max": 1}}}]), rule_path="p2.yaml", input="L1"),
     "bad_regex":    dict(rule=_r([{"mov": ["(%rbx"]}], {"operands-full-match": True}), rule_path="p3.yaml", input="L1"),
     "missing_in":   dict(rule=_r(["mov"], {"operands-full-match": True}), rule_path="p3.yaml", input="MISSING"),
+    "hexh_full":    dict(rule=_r([{"movl": ["1h"]}], {"operands-full-match": True}), rule_path="p1.yaml", input="L1"),     # <hex>h number syntax
+    "hexh_part":    dict(rule=_r([{"movl": ["1h"]}]), rule_path="p2.yaml", input="L1"),
     "first_bool":   dict(rule=_r([{"mov": ["rax"]}]), rule_path="p1.yaml", input="L1", modes=("bool", "first", False)),
     "first_list":   dict(rule=_r(["push"]), rule_path="p1.yaml", input="L1", modes=("list", "first", False)),
 }
